@@ -789,6 +789,170 @@ CORPUS = [
 ]
 
 
+# ------------------------------------------------------------------------------------------------ size gates read from the source
+GATE_SCOPE = {
+    'sparseSpACE/Integrator.py': None, 'sparseSpACE/StandardCombi.py': None, 'sparseSpACE/Utils.py': None,
+    'sparseSpACE/Function.py': ['Function'],
+    'sparseSpACE/GridOperation.py': ['GridOperation', 'AreaOperation', 'Integration', 'Interpolation'],
+    'sparseSpACE/Grid.py': ['Grid', 'Grid1d', 'TrapezoidalGrid', 'TrapezoidalGrid1D'],
+    'sparseSpACE/combiScheme.py': None, 'sparseSpACE/ComponentGridInfo.py': None,
+}
+
+
+def scan_gates():
+    """axis (h), for thresholds that exist only in the source UNDER TEST: integer literals and constant expressions (2**k, 1 << k,
+    k * 1024, 10**k ...) of the files / classes on the C02 code path as they are in $VERIF_REPO, 64 < g <= 2**17"""
+    import ast
+    import os
+    repo = os.environ.get('VERIF_REPO', '/repo')
+    gates = {}
+
+    def const(n):
+        if isinstance(n, ast.Constant) and type(n.value) is int:
+            return n.value
+        if isinstance(n, ast.BinOp):
+            l, r = const(n.left), const(n.right)
+            if l is None or r is None:
+                return None
+            try:
+                if isinstance(n.op, ast.Pow) and 0 <= r <= 40 and abs(l) <= 1024:
+                    return l ** r
+                if isinstance(n.op, ast.LShift) and 0 <= r <= 40:
+                    return l << r
+                if isinstance(n.op, ast.Mult):
+                    return l * r
+                if isinstance(n.op, ast.Add):
+                    return l + r
+                if isinstance(n.op, ast.Sub):
+                    return l - r
+            except (OverflowError, ValueError):
+                return None
+        return None
+    for rel, classes in GATE_SCOPE.items():
+        try:
+            import warnings
+            with warnings.catch_warnings():
+                warnings.simplefilter('ignore')
+                mod = ast.parse(open(os.path.join(repo, rel)).read())
+        except (OSError, SyntaxError):
+            continue
+        roots = [mod] if classes is None else [st for st in mod.body if isinstance(st, ast.ClassDef) and st.name in classes]
+        for root in roots:
+            for n in ast.walk(root):
+                v = const(n)
+                if v is not None and 64 < v <= 2 ** 17:
+                    gates.setdefault(v, '%s:%d' % (rel, getattr(n, 'lineno', 0)))
+    return gates
+
+
+def large_case_for(g):
+    """the cheapest single-component-grid configuration whose grid has just over g points: d in {1, 2}, lmin = lmax = L, both flags"""
+    best = None
+    for d in (1, 2):
+        for bd in (True, False):
+            for L in range(1, 19):
+                n = (2 ** L + (1 if bd else -1)) ** d
+                if n > g:
+                    if best is None or n < best[0]:
+                        best = (n, d, bd, L)
+                    break
+    n, d, bd, L = best
+    return dict(kind='large', d=d, boundary=bd, level=L, npoints=n, gate=g,
+                a=[Fr(0), Fr(-1)][:d], b=[Fr(1), Fr(2)][:d], al=[Fr(1), Fr(-2)][:d], be=[Fr(3), Fr(1, 2)][:d])
+
+
+def large_cases():
+    gates = scan_gates()
+    cases = [dict(large_case_for(g), where=w) for g, w in sorted(gates.items())]
+    # sizes nobody has ever run are a gap by themselves: always one 1D grid with 2^17 + 1 points and one 2D grid with 513 x 513 points
+    cases.append(dict(large_case_for(2 ** 17 - 1), gate=None, where='fixed'))
+    cases.append(dict(kind='large', d=2, boundary=True, level=9, npoints=513 * 513, gate=None, where='fixed',
+                      a=[Fr(0), Fr(-1)], b=[Fr(1), Fr(2)], al=[Fr(1), Fr(-2)], be=[Fr(3), Fr(1, 2)]))
+    seen, out = set(), []
+    for c in cases:
+        key = (c['d'], c['boundary'], c['level'])
+        if key not in seen:
+            seen.add(key)
+            out.append(c)
+    return out, gates
+
+
+def impl_large(c):
+    """oracle-only: one large component grid, vector-valued integrand (constant 1, product of affine functions)"""
+    import numpy as np
+    from sparseSpACE.StandardCombi import StandardCombi
+    from sparseSpACE.Grid import TrapezoidalGrid
+    from sparseSpACE.GridOperation import Integration
+    from sparseSpACE.Function import Function
+    al = [float(x) for x in c['al']]; be = [float(x) for x in c['be']]
+
+    class F(Function):
+        def output_length(self):
+            return 2
+
+        def eval(self, x):
+            p = 1.0
+            for k in range(len(x)):
+                p *= al[k] + be[k] * x[k]
+            return np.array([1.0, p])
+    a = np.array([float(x) for x in c['a']]); b = np.array([float(x) for x in c['b']])
+    grid = TrapezoidalGrid(a=a, b=b, boundary=c['boundary'])
+    sc = StandardCombi(a, b, operation=Integration(f=F(), grid=grid, dim=c['d']))
+    scheme, err, result = sc.perform_operation(c['level'], c['level'])
+    lv = scheme[0].levelvector
+    return dict(integral=[float(x) for x in result], scheme=[[[int(x) for x in g.levelvector], float(g.coefficient)] for g in scheme],
+                announced=int(sc.get_num_points_component_grid(lv, False)), total=int(sc.get_total_num_points()))
+
+
+def large_expected(c):
+    """exact trapezoidal sums of the constant 1 and of prod_d (al_d + be_d x_d) on the uniform grid of 2^L intervals per dimension"""
+    one, prod = Fr(1), Fr(1)
+    n = 2 ** c['level']
+    for k in range(c['d']):
+        a, b, al, be = c['a'][k], c['b'][k], c['al'][k], c['be'][k]
+        h = (b - a) / n
+        inner_cnt = n - 1
+        inner_sum_x = inner_cnt * a + h * Fr(n * (n - 1), 2)
+        s1 = h * inner_cnt
+        sp = h * (al * inner_cnt + be * inner_sum_x)
+        if c['boundary']:
+            s1 += h
+            sp += h / 2 * ((al + be * a) + (al + be * b))
+        one *= s1
+        prod *= sp
+    return [one, prod]
+
+
+def oracle_large(c, r):
+    if r['scheme'] != [[[c['level']] * c['d'], 1.0]]:
+        return 'scheme', 'scheme %s for lmin = lmax = %d' % (r['scheme'], c['level'])
+    if r['announced'] != c['npoints'] or r['total'] != c['npoints']:
+        return 'total-points', 'grid with %d points: announced %d, get_total_num_points %d' % (c['npoints'], r['announced'], r['total'])
+    want = large_expected(c)
+    for k, name in enumerate(('the constant 1', 'a product of affine functions')):
+        if not closef(r['integral'][k], float(want[k]), scale=0.0):
+            return 'large-grid-integral', 'component grid with %d points (level %d, d=%d, boundary=%s): %s integrates to %r, the trapezoidal sum is %r' % (
+                c['npoints'], c['level'], c['d'], c['boundary'], name, r['integral'][k], float(want[k]))
+    return None
+
+
+def run_large(chk):
+    cases, gates = large_cases()
+    chk.extra['size_gates_in_source'] = {str(g): w for g, w in sorted(gates.items())}
+    res = run_impl(impl_large, cases, limit=600)
+    for c, (status, r) in zip(cases, res):
+        chk.count('large oracle-only case: %d points (gate %s)' % (c['npoints'], c['gate']))
+        sig = dict(boundary=c['boundary'], large=True)
+        if status != 'ok':
+            chk.violation('corr:C02/run', 'impl-exception', dict(sig, exc=r[0] if r else status), c, dict(impl=str(r)))
+            continue
+        why = oracle_large(c, r)
+        if why:
+            chk.violation('oracle:std_combi', 'property-predicate', dict(sig, clause=why[0]), c, dict(why=why[1], clause=why[0], gate=c['gate'], where=c['where']))
+    return len(cases)
+
+
+
 def confirm_and_report(chk, pending):
     """every worker process runs many cases one after the other: a violation may be due to state an EARLIER case left behind in
     the process (class-level caches ...). Re-run each violating history alone in a fresh process: only a history that fails on its
@@ -1040,11 +1204,13 @@ def run(chk):
                                      dict(why=why[1], clause=why[0], found_by='failing-input search'), k))
         confirm_and_report(chk, pending2)
         chk.extra['failing_input_search'] = dict(configs=len(search), cases_tried=len(extra), failing_inputs_found=found)
+    t5 = time.time()
+    nlarge = run_large(chk)
     _c02_gen.finish(chk, gen_info, gen_problem)
     chk.extra['phase_seconds'] = dict(coq=round(t1 - t0, 1), implementation=round(t2 - t1, 1), model=round(t3 - t2, 1),
-                                      compare_and_oracle=round(t4 - t3, 1), search=round(time.time() - t4, 1))
+                                      compare_and_oracle=round(t4 - t3, 1), search=round(t5 - t4, 1), large_cases=round(time.time() - t5, 1))
     chk.extra['envelope'] = ENVELOPE
-    chk.record_cases(len(cases), keys,
+    chk.record_cases(len(cases) + nlarge, keys,
                      'histories of 1-3 requests on 1-2 (StandardCombi, TrapezoidalGrid, Integration) triples in one process: d 1..5, '
                      '0<=lmin, lmax-lmin in -1..3, dyadic boxes incl. boxes far from the origin / tiny boxes, boundary on/off, both integrators, '
                      'scalar and vector-valued f in {polynomial, hierarchical/nodal hat, nodal unit}, reference solution on/off, 0/6/205/1031 '
@@ -1109,6 +1275,14 @@ ENVELOPE = {
 
 def replay(chk, rep):
     c = rep['case']
+    if c.get('kind') == 'large':
+        for key in ('a', 'b', 'al', 'be'):
+            c[key] = [Fr(x) for x in c[key]]
+        status, r = run_impl(impl_large, [c], limit=600)[0]
+        print('impl:', status, str(r)[:600])
+        why = oracle_large(c, r) if status == 'ok' else ('exception', str(r))
+        print('property predicate:', why or 'holds')
+        return 1 if why else 0
 
     def fr(v):
         if isinstance(v, str):
